@@ -64,15 +64,22 @@ package scanner
 //@   maypanic
 //@   ensures normal ==> result == isNewLine(c)
 //@   ensures panics <==> (isNewLine(c) && s.annotation == annotationInline)
+//@   ensures panics ==> typeis(pv, errors.DocumentError)
 //@ func (*Scanner).isAnnotationStart(c)
 //@   props C14
 //@   nopanic
 //@   ensures result == (c == '/')
+// an annotation may open only where the scanner allows one and not inside an inline
+// annotation; the interrupted step is pushed and resumed afterwards
 //@ func (*Scanner).switchToAnnotation()
-//@   props C14
+//@   props C14 C13
 //@   requires s != nil && s.returnToStep != nil && 1 <= s.index && s.index <= len(s.data)
 //@   maypanic
 //@   modifies s.step, s.returnToStep.vals, s.returnToStep.vals[*]
+//@   ensures panics <==> (!s.allowAnnotation || !(s.annotation == annotationNone || s.annotation == annotationMultiLine))
+//@   ensures panics ==> typeis(pv, errors.DocumentError) && unbox(pv, errors.DocumentError).index == s.index - 1 && unbox(pv, errors.DocumentError).hasIndex
+//@   ensures normal ==> len(s.returnToStep.vals) == old(len(s.returnToStep.vals)) + 1 && s.returnToStep.vals[old(len(s.returnToStep.vals))] == old(s.step)
+//@   ensures normal ==> s.step == (s.annotation == annotationNone ? stateAnyAnnotationStart : stateInlineAnnotationStart)
 //@ func (*Scanner).switchToComment()
 //@   props C14
 //@   requires s != nil && s.returnToStep != nil && 1 <= s.index && s.index <= len(s.data)
@@ -134,3 +141,29 @@ package scanner
 //@   ensures normal && s.annotation == annotationNone ==> s.allowAnnotation
 //@   ensures normal && s.annotation != annotationNone ==> s.allowAnnotation == old(s.allowAnnotation)
 //@   ensures normal && c != '}' ==> len(s.finds) == old(len(s.finds)) + 1 && s.finds[old(len(s.finds))] == lexeme.ObjectKeyBegin
+
+// ---- C13/C06: where a value may start.  Line ends and blanks before a value are
+// transparent (a line end is reported), `/` opens an annotation, and the first byte
+// decides the kind of value; anything else is an error at that byte ----
+//@ func stateBeginValue(s, c)
+//@   props C13 C06 C05
+//@   requires s != nil && s.returnToStep != nil && 1 <= s.index && s.index <= len(s.data)
+//@   maypanic
+//@   modifies s.step, s.finds, s.finds[*], s.unfinishedLiteral, s.returnToStep.vals, s.returnToStep.vals[*]
+//@   ensures panics <==> ((isNewLine(c) && s.annotation == annotationInline)
+//@                        || (c == '/' && (!s.allowAnnotation || !(s.annotation == annotationNone || s.annotation == annotationMultiLine)))
+//@                        || !(isBlank(c) || c == '/' || c == '{' || c == '[' || c == '"' || c == '-' || c == 't' || c == 'f' || c == 'n' || c == '@' || ('0' <= c && c <= '9')))
+//@   ensures panics ==> typeis(pv, errors.DocumentError)
+//@   ensures normal && isNewLine(c) ==> result == scanContinue && len(s.finds) == old(len(s.finds)) + 1 && s.finds[old(len(s.finds))] == lexeme.NewLine && s.step == old(s.step) && s.unfinishedLiteral == old(s.unfinishedLiteral)
+//@   ensures normal && isBlank(c) && !isNewLine(c) ==> result == scanContinue && len(s.finds) == old(len(s.finds)) && s.step == old(s.step) && s.unfinishedLiteral == old(s.unfinishedLiteral)
+//@   ensures normal && c == '/' ==> result == scanContinue && len(s.finds) == old(len(s.finds))
+//@   ensures normal && c == '{' ==> result == scanBeginObject && s.step == stateFoundObjectKeyBeginOrEmpty && len(s.finds) == old(len(s.finds))
+//@   ensures normal && c == '[' ==> result == scanBeginArray && s.step == stateFoundArrayItemBeginOrEmpty && len(s.finds) == old(len(s.finds))
+//@   ensures normal && c == '"' ==> result == scanBeginLiteral && s.step == stateInString && s.unfinishedLiteral
+//@   ensures normal && c == '-' ==> result == scanBeginLiteral && s.step == stateNeg && s.unfinishedLiteral
+//@   ensures normal && c == '0' ==> result == scanBeginLiteral && s.step == state0
+//@   ensures normal && '1' <= c && c <= '9' ==> result == scanBeginLiteral && s.step == state1
+//@   ensures normal && c == 't' ==> result == scanBeginLiteral && s.step == stateT && s.unfinishedLiteral
+//@   ensures normal && c == 'f' ==> result == scanBeginLiteral && s.step == stateF && s.unfinishedLiteral
+//@   ensures normal && c == 'n' ==> result == scanBeginLiteral && s.step == stateN && s.unfinishedLiteral
+//@   ensures normal && c == '@' ==> result == scanBeginTypesShortcut && s.step == stateTypesShortcutBeginOfSchemaName && s.unfinishedLiteral
